@@ -175,7 +175,8 @@ def run(ctx):
                         ctx.stat("tree_children_related")
                         if not related(child, base, w.start_type(), donors, w.ref):
                             fresh = canon(child, w.ref) != canon(base, w.ref)
-                            ctx.violate("C06/tree-crossover/child-not-one-subtree-swap",
+                            start_kind = "abstract" if w.ref.is_abstract(w.spec["start"]) else "concrete"
+                            ctx.violate(f"C06/tree-crossover/child-not-one-subtree-swap/{start_kind}-start",
                                         f"{tag} child of a tree crossover is not its base parent with one subtree taken from the other parent: "
                                         f"child={render_value(child, w.ref)[:200]} base={render_value(base, w.ref)[:200]} other={render_value(other, w.ref)[:200]}")
                 else:
